@@ -55,6 +55,13 @@ def _sfun(spf):
     return g
 
 
+def _csqrt(e):
+    """sqrt with the radicand in canonical (expanded, common factors pulled out) form"""
+    if e.is_number:
+        return sp.sqrt(e)
+    return sp.sqrt(sp.factor_terms(sp.expand(e)))
+
+
 def _seq_has_symseq(x):
     return isinstance(x, SymSeq) or (isinstance(x, (list, tuple)) and any(_seq_has_symseq(i) for i in x))
 
@@ -235,7 +242,7 @@ class _NP:
 
     # element-wise ----------------------------------------------------------------
     def sqrt(self, x):
-        return _ew(_sfun(sp.sqrt), x)
+        return _ew(_sfun(_csqrt), x)
 
     def cbrt(self, x):
         return _ew(_sfun(sp.cbrt), x)
